@@ -145,7 +145,7 @@ type c10Rendering struct {
 
 func genC10(c *Ctx) {
 	r := c.R
-	c.Rule = "random JSON-like documents with rectangular arrays of objects (depth ≤3), each with 5 data-directed queries; every query is evaluated on the json rendering (map[string]any/[]any/float64) and on 12 re-renderings of the same document (integer kinds, decimal.Decimal, named types, pointers to numbers, Go arrays, typed slices, StructOf structs, map[NString]any, map[any]any, objects behind pointers, mixed number carriers, named number types with a String method; the float32 rounding of the document as plain float32 / named float32 / *float32 (compared with each other), and the document's JSON/YAML/TOML text parsed inside the query); oracle: equal logical result (keys case-folded, numbers by value). Sprintf serialises the carrier by design and is excluded; AsJSON (appended to the first query of every document: a serialisation of whatever sub-document the query reached, incl. lists of lists of objects) is compared between the json maps and the JSON/YAML/TOML text carriers only; RemoveKeysBy* is excluded on the struct rendering (a case-sensitive pattern meets the capitalised field name: an ambiguity of the re-representation itself). distinct = distinct (query skeleton, data shape, outcome class); non-trivial = outcome is not the most common class"
+	c.Rule = "random JSON-like documents with rectangular arrays of objects (depth ≤3), each with 5 data-directed queries; every query is evaluated on the json rendering (map[string]any/[]any/float64) and on 12 re-renderings of the same document (integer kinds, decimal.Decimal, named types, pointers to numbers, Go arrays, typed slices, StructOf structs, map[NString]any, map[any]any, objects behind pointers, mixed number carriers, named number types with a String method, a named type over decimal.Decimal; the float32 rounding of the document as plain float32 / named float32 / *float32 (compared with each other), and the document's JSON/YAML/TOML text parsed inside the query); oracle: equal logical result (keys case-folded, numbers by value). Sprintf serialises the carrier by design and is excluded; AsJSON (appended to the first query of every document: a serialisation of whatever sub-document the query reached, incl. lists of lists of objects) is compared between the json maps and the JSON/YAML/TOML text carriers only; RemoveKeysBy* is excluded on the struct rendering (a case-sensitive pattern meets the capitalised field name: an ambiguity of the re-representation itself). distinct = distinct (query skeleton, data shape, outcome class); non-trivial = outcome is not the most common class"
 	rends := []c10Rendering{
 		{"int-kinds", Style{Obj: "map", Num: "int", R: r}},
 		{"decimal", Style{Obj: "map", Num: "dec"}},
@@ -161,6 +161,7 @@ func genC10(c *Ctx) {
 		{"iface-named-key-map", Style{Obj: "inmap", Num: "f64"}},
 		{"ptr-objects", Style{Obj: "map", Num: "f64", PtrObj: true}},
 		{"stringer-numbers", Style{Obj: "map", Num: "stringer"}},
+		{"named-decimal", Style{Obj: "map", Num: "ndec"}},
 		{"mixed", Style{Obj: "map", Num: "mixed", R: r}},
 	}
 	n := c.scale(2600, 26000)
